@@ -110,6 +110,17 @@ package cl
 //@   ensures exit-stops: exit_stops(result) && no_exit_before($n - 1)
 //@   loop pos<len(args): invariant trace: $n == pos && !truthy($eres[0]) && slots_in_order(s) && no_exit_before($n) && (pos > 1 ==> result == $eres[$n - 1]) && (pos == 1 ==> result == nil)
 
+// cond / case: a return-from or go marker coming out of a test or clause form
+// is the result; nothing is evaluated after it.
+//@ func cl.(*Cond).Call
+//@   property C01 C07
+//@   option forward-exits
+//@   ensures exit-is-result: $exit ==> ($n >= 1 && result == $eres[$n - 1] && is_exit($eres[$n - 1]))
+//@ func cl.(*Case).Call
+//@   property C01 C07
+//@   option forward-exits
+//@   ensures exit-is-result: $exit ==> ($n >= 1 && result == $eres[$n - 1] && is_exit($eres[$n - 1]))
+
 //@ func cl.(*If).Call
 //@   property C01 C07
 //@   option eval-once
